@@ -15,6 +15,21 @@ import time
 VERIF = os.path.dirname(os.path.dirname(os.path.abspath(__file__)))
 SPEC = os.path.join(VERIF, "spec")
 HARNESS = os.path.join(VERIF, "harness")
+# VERIF_REPO=<dir>: test another checkout of the repository (e.g. a scratch worktree holding a seeded change) without
+# touching /repo: a private copy of the harness crate is pointed at it.  Registered checks never set it.
+ALT_REPO = os.environ.get("VERIF_REPO")
+if ALT_REPO:
+    ALT_REPO = os.path.abspath(ALT_REPO)
+    _h = os.path.join(VERIF, "work", "harness-" + hashlib.sha1(ALT_REPO.encode()).hexdigest()[:10])
+    if not os.path.exists(os.path.join(_h, "Cargo.toml")):
+        os.makedirs(_h, exist_ok=True)
+        shutil.copytree(os.path.join(HARNESS, "src"), os.path.join(_h, "src"), dirs_exist_ok=True)
+        shutil.copytree(os.path.join(HARNESS, ".cargo"), os.path.join(_h, ".cargo"), dirs_exist_ok=True)
+        shutil.copy(os.path.join(HARNESS, "Cargo.lock"), _h)
+        open(os.path.join(_h, "Cargo.toml"), "w").write(open(os.path.join(HARNESS, "Cargo.toml")).read().replace('path = "/repo"', 'path = "%s"' % ALT_REPO))
+    else:
+        shutil.copytree(os.path.join(HARNESS, "src"), os.path.join(_h, "src"), dirs_exist_ok=True)
+    HARNESS = _h
 VH = os.path.join(HARNESS, "target", "release", "vh")
 JAR = "/opt/veriftools/tla/tla2tools.jar:/opt/veriftools/tla/CommunityModules-deps.jar"
 NCPU = os.cpu_count() or 4
@@ -309,10 +324,11 @@ def event_key(ev):
 
 
 def write_evidence(prop, tier, seed, coverage, assumptions, wall, violations):
-    os.makedirs(os.path.join(VERIF, "evidence"), exist_ok=True)
+    edir = os.path.join(VERIF, "work", "evidence-alt") if ALT_REPO else os.path.join(VERIF, "evidence")
+    os.makedirs(edir, exist_ok=True)
     ev = {"property_id": prop, "tier": tier, "seed": seed, "level": "model_checking", "coverage": coverage,
           "assumptions": assumptions, "wall_s": round(wall, 1), "violations": violations}
-    with open(os.path.join(VERIF, "evidence", prop + ".json"), "w") as f:
+    with open(os.path.join(edir, prop + ".json"), "w") as f:
         json.dump(ev, f, indent=1)
         f.write("\n")
 
